@@ -43,17 +43,17 @@ CMPS = [({}, ''), ({'VF_CMP': 1}, '.ucmp'), ({'VF_CMP': 2}, '.rcmp')]
 
 def func_cases(tier, prefix='c01', ops=('PUT', 'REMOVE', 'GET', 'MIN', 'MAX', 'SIZE', 'CLEAR'), extra=None, nmax=None, **kw):
     q = tier == 'quick'
-    nmax = nmax if nmax is not None else (6 if q else 9)
+    nmax = nmax if nmax is not None else (5 if q else 7)
     out = []
     for sh in shapes(nmax):
         for op in ops:
             variants = [({}, '')]
             if op in ('PUT', 'REMOVE', 'GET'):
                 variants = list(CMPS)
-                if sh['n'] <= (4 if q else 6):
+                if sh['n'] <= (4 if q else 5):
                     variants += [({'VF_OPKSZ': 2}, '.k2'), ({'VF_KSZ': 2, 'VF_OPKSZ': 2}, '.kk2'), ({'VF_KSZ': 2, 'VF_OPKSZ': 1}, '.k21'),
                                  ({'VF_API': 1, 'VF_KSZ': 2, 'VF_OPKSZ': 2}, '.str')]
-                if op == 'PUT' and sh['n'] <= (4 if q else 6):
+                if op == 'PUT' and sh['n'] <= (4 if q else 5):
                     variants += [({'VF_DSZ': 2}, '.d2'), ({'VF_DSZ': 3, 'VF_PDSZ': 1}, '.d3')]
             elif op in ('MIN', 'MAX'):
                 variants = [({}, ''), ({'VF_CMP': 2}, '.rcmp')]
@@ -75,24 +75,24 @@ def cases(tier, mode='func'):
     if mode == 'func':
         return func_cases(tier)
     if mode == 'safety':
-        return func_cases(tier, prefix='c11', checks='safety', leak=True, nmax=5 if q else 7)
+        return func_cases(tier, prefix='c11', checks='safety', leak=True, nmax=3 if q else 5)
     if mode == 'copy':
         cc = {'VF_COPYCHK': None}
         return func_cases(tier, prefix='c12', checks='safety', ops=('PUT', 'GET', 'MIN', 'MAX'), nmax=3 if q else 5, extra=cc) + \
             [tree_case('c12', sh, 'NEAREST', cc, checks='safety') for sh in shapes(3 if q else 5)] + [tree_case('c12', sh, 'WALK', cc, checks='safety') for sh in shapes(3 if q else 4)]
     out = []
     if mode == 'lock':
-        for fd, fs in FAILS + [({'VF_FAILMASK': 0}, 'nofail')]:
+        for fd, fs in (FAILS if not q else [f for f in FAILS if f[1] in ('f0', 'f1', 'ff0')]) + [({'VF_FAILMASK': 0}, 'nofail')]:
             d = {'VF_TS': None, 'VF_ALLOCFAIL': None}
             d.update(fd)
-            out += func_cases(tier, prefix='c14.%s' % fs, extra=d, nmax=2 if q else 4, ops=('PUT', 'REMOVE', 'GET', 'MIN', 'MAX', 'SIZE', 'CLEAR'))
+            out += func_cases(tier, prefix='c14.%s' % fs, extra=d, nmax=2 if q else 3, ops=('PUT', 'REMOVE', 'GET', 'MIN', 'MAX', 'SIZE', 'CLEAR'))
             out += [tree_case('c14.%s' % fs, sh, op, d) for sh in shapes(2 if q else 3) for op in ('WALK', 'NEAREST')]
         return out
     if mode == 'allocfail':
-        for fd, fs in FAILS:
+        for fd, fs in (FAILS if not q else [f for f in FAILS if f[1] in ('f0', 'f1', 'f2', 'ff0')]):
             d = {'VF_ALLOCFAIL': None}
             d.update(fd)
-            out += func_cases(tier, prefix='c15.%s' % fs, extra=d, nmax=4 if q else 6, ops=('PUT', 'REMOVE', 'GET', 'MIN', 'MAX', 'CLEAR'))
+            out += func_cases(tier, prefix='c15.%s' % fs, extra=d, nmax=3 if q else 4, ops=('PUT', 'REMOVE', 'GET', 'MIN', 'MAX', 'CLEAR'))
             out += [tree_case('c15.ts.%s' % fs, shapes(0)[0], 'CTOR', dict(d, VF_TS=None))]
         return out
     raise ValueError(mode)
@@ -104,7 +104,7 @@ def shape_cases(tier):
     tree up to one node above the step bound (so it accepts every post-state of (1)) and on EVERY coloured binary tree up to a
     small size, valid or not; (4) for tiny trees the library check is also asserted directly on the symbolic post-state."""
     q = tier == 'quick'
-    nstep = 5 if q else 8
+    nstep = 5 if q else 7
     out = []
     for sh in shapes(nstep):
         for op in ('PUT', 'REMOVE'):
@@ -155,7 +155,7 @@ def info(tier):
     q = tier == 'quick'
     return {'container': 'tree table (qtreetbl.c)',
             'bounds': 'every valid 2-3-4 LLRB (shape, colouring) with <= %d nodes for C01/C02 (%d shapes), <= %d for safety, smaller for copy/lock/allocfail; keys 1-2 bytes, values 1-3 bytes; recursion unwound to height+3'
-                      % ((6, len(shapes(6)), 5) if q else (9, len(shapes(9)), 7)),
+                      % ((5, len(shapes(5)), 3) if q else (7, len(shapes(7)), 5)),
             'prestate': 'every tree satisfying the LLRB234 invariant (superset of the reachable trees; the invariant is shown inductive by these same queries), keys fixed by in-order rank (order isomorphism), '
                         'epoch stamps/next links arbitrary (subject to: no stamp exceeds the table epoch, for C03/C04)',
             'stubs': ['allocator shim stubs.h', 'lock model stubs.h', 'CBMC models of memcmp/memcpy/strlen']}
